@@ -1237,6 +1237,37 @@ pub fn run(ctx: &Ctx) {
         }
         emit(&mut out, tree_case(ty, tree, ops));
     }
+    // many keys held by one keyed aggregator at a flush (the flush walks the whole table; tables of this size have
+    // grown several times): every key entered once, then a random second pass, one flush, a few more, a last flush
+    // (the model's tables are association lists: its cost is quadratic in the number of keys)
+    let sizes: &[(usize, u64, u64)] =
+        if ctx.tier_thorough { &[(1025, 0, 2), (4097, 0, 2), (5000, 0, 2), (9000, 0, 2), (20_000, 0, 1)] } else { &[(4200, 0, 1)] };
+    for &(nkeys, lo, hi) in sizes {
+        for shape in lo..hi {
+            let names = g.names(nkeys);
+            let tree = if shape == 0 { sx::tag(0, vec![sx::tag(0, vec![])]) } else { gen_tree(&mut g.rng) };
+            let root_keyed = tree.tag() == 0;
+            let mut ops = vec![];
+            for nm in names.iter() {
+                let mut e = g.entry(0, &names, 1, false);
+                e.name = nm.clone();
+                let by_ref = root_keyed && g.rng.chance(1, 2);
+                ops.push(sx::tag(if by_ref { 2 } else { 0 }, vec![enc_entry(&e)]));
+            }
+            for _ in 0..nkeys / 3 {
+                let e = g.entry(0, &names, 1, false);
+                ops.push(sx::tag(0, vec![enc_entry(&e)]));
+            }
+            ops.push(sx::tag(1, vec![]));
+            for _ in 0..20 {
+                let e = g.entry(0, &names, 1, false);
+                ops.push(sx::tag(0, vec![enc_entry(&e)]));
+            }
+            ops.push(sx::tag(1, vec![]));
+            emit(&mut out, tree_case(0, tree, ops));
+            out.count("tree_many_keys_cases");
+        }
+    }
     for _ in 0..(n / 4) {
         let ty = g.rng.below(3);
         let len = *g.rng.pick(&[0u64, 1, 2, 5, 30, 200]);
@@ -1425,5 +1456,5 @@ pub fn run(ctx: &Ctx) {
         emit(&mut out_thr, case);
     }
     out_thr.finish("real threads: 1-4 threads with random scripts (merges/sends, awaited flushes, guards created / mutated / dropped in any order, closes on clones, sleeps) on one MutexSink<Aggregate> resp. one WorkerSink over a random tee tree (interval never / zero / 300 us); the linearisation recorded under the lock resp. on the worker thread is checked for per-thread FIFO and the flush barrier and replayed through the model. Non-trivial = at least two entries produced; distinct by hash of the case");
-    out.finish("sink trees: every operation sequence up to the tier's depth over 4 entries on 3 keys + flush (exhaustive) on a 3-leaf tee, plus random histories (1-600 keys with collisions, flush density 1/3..1/1000, by-ref/owned merges, 5 tree shapes, 2 source types); embedded Aggregate: random insert lists. Non-trivial = at least two merges and one flush (tree) / two inserts (embedded); distinct by hash of the case");
+    out.finish("sink trees: every operation sequence up to the tier's depth over 4 entries on 3 keys + flush (exhaustive) on a 3-leaf tee, plus random histories (1-600 keys with collisions; and histories with 4200 (thorough: 1025 to 20000) distinct keys held at one flush, flush density 1/3..1/1000, by-ref/owned merges, 5 tree shapes, 2 source types); embedded Aggregate: random insert lists. Non-trivial = at least two merges and one flush (tree) / two inserts (embedded); distinct by hash of the case");
 }
